@@ -1,7 +1,8 @@
 (** Model of the boot-flow interpreter: pkg/bootflow/bootengine/boot_process.go
     ([stateNextStep], [NextStep], [Finish], [safeWrapper]), types/state.go
     ([SetFlow], [AddMeasuredData]), the step constructors of
-    steps/commonsteps ([If], [MergeSteps], [SetFlow], [SetActor], [Panic]),
+    steps/commonsteps ([If], [MergeSteps], [SetFlow], [SetFlowFromFunc],
+    [SetActor], [Panic]),
     steps/tpmsteps ([InitTPM], [Measure]) and the actions behind them.
     Executable definitions only; proofs live in Proofs/Interp.v.
 
@@ -26,6 +27,22 @@ Definition MAXUINT : Z := W64 - 1.
 (** what a harness-defined action / data source does at the end of Apply *)
 Inductive ares := ROk | RErr | RPanic.
 
+Inductive cond :=
+| CConst (b : bool)
+| CActorIs (a : option Z)          (* state.CurrentActor is actor a / nil *)
+| CMeasuredLt (n : Z)              (* len(state.MeasuredData) < n *)
+| CTPMInited                       (* TPM subsystem present and initialised *)
+| CMeasuredHas (id : Z)            (* state.MeasuredData has an entry of data source id *)
+| CNot (c : cond)
+| CPanic.                          (* Check panics *)
+
+(** the function handed to [SetFlowFunc] / [SetFlowFromFunc]: a decision tree
+    over the State whose leaves name the flow returned (or panic) *)
+Inductive ffun :=
+| FFlow (g : Z)
+| FIf (c : cond) (t e : ffun)
+| FPanic.
+
 Inductive action :=
 | ASetFlow (g : Z)                 (* commonactions.SetFlow(flow named g) *)
 | ASetActor (a : option Z)         (* commonactions.SetActor(actor a / nil) *)
@@ -33,16 +50,12 @@ Inductive action :=
 | ATPMInit                         (* tpmactions.TPMInit *)
 | ATPMLogAdd                       (* tpmactions.TPMEventLogAdd (from tpmsteps.LogInit) *)
 | ATPMMeasure (id : Z) (r : ares)  (* tpmactions.TPMEvent on PCR0/1; data source [id] returns data / error / panics *)
-| ACustom (id : Z) (m : option Z) (g : option Z) (r : ares).
+| ACustom (id : Z) (m : option Z) (g : option Z) (r : ares)
                                    (* harness action: AddMeasuredData m?, SetFlow g?, then nil / error / panic *)
-
-Inductive cond :=
-| CConst (b : bool)
-| CActorIs (a : option Z)          (* state.CurrentActor is actor a / nil *)
-| CMeasuredLt (n : Z)              (* len(state.MeasuredData) < n *)
-| CTPMInited                       (* TPM subsystem present and initialised *)
-| CNot (c : cond)
-| CPanic.                          (* Check panics *)
+| ASetFlowFunc (id : Z) (fn : ffun).
+                                   (* commonactions.SetFlowFunc(fn): Apply does state.SetFlow(fn(state)) —
+                                      the flow is chosen WHEN THE ACTION IS APPLIED, on the state
+                                      left by the actions applied before it *)
 
 Inductive step :=
 | SStatic (acts : list action)              (* types.StaticStep *)
@@ -52,8 +65,9 @@ Inductive step :=
 | SSetActor (a : option Z)                  (* commonsteps.SetActor *)
 | SPanic                                    (* commonsteps.Panic *)
 | SInitTPM (withLog : bool)                 (* tpmsteps.InitTPM *)
-| SCustom (id : Z) (panics : bool) (acts : list action).
+| SCustom (id : Z) (panics : bool) (acts : list action)
                                             (* harness step: Actions() returns acts or panics *)
+| SSetFlowFunc (id : Z) (fn : ffun).        (* commonsteps.SetFlowFromFunc(fn) *)
 
 (** a top-level step of a flow with the identity the log is compared by *)
 Definition tstep : Type := Z * step.
@@ -82,8 +96,22 @@ Fixpoint eval_cond (cd : cond) (c : core) : outcome bool :=
   | CActorIs a => Ok (opt_eqb a (c_actor c))
   | CMeasuredLt n => Ok (Z.of_nat (length (c_measured c)) <? n)
   | CTPMInited => Ok (match c_tpm c with Some true => true | _ => false end)
+  | CMeasuredHas id => Ok (existsb (Z.eqb id) (c_measured c))
   | CNot cd' => match eval_cond cd' c with Ok b => Ok (negb b) | o => o end
   | CPanic => Panic
+  end.
+
+(** [fn(state)]: the name of the flow returned, or [Panic] *)
+Fixpoint eval_ffun (fn : ffun) (c : core) : outcome Z :=
+  match fn with
+  | FFlow g => Ok g
+  | FIf cd t e =>
+      match eval_cond cd c with
+      | Ok true => eval_ffun t c
+      | Ok false => eval_ffun e c
+      | _ => Panic
+      end
+  | FPanic => Panic
   end.
 
 (** [Step.Actions(ctx, state)]: [Ok acts] or [Panic].  (The interface has no
@@ -120,6 +148,7 @@ Fixpoint actions_of (s : step) (c : core) : outcome (list action) :=
              end
            else []))
   | SCustom _ p acts => if p then Panic else Ok acts
+  | SSetFlowFunc id fn => Ok [ASetFlowFunc id fn]        (* [fn] is NOT called here *)
   end.
 
 Definition res_outcome (r : ares) : outcome unit :=
@@ -161,13 +190,20 @@ Definition core_apply (a : action) (c : core) : core * list Z * outcome unit :=
       | Some id => (add_measured c id, [id], res_outcome r)
       | None => (c, [], res_outcome r)
       end
+  | ASetFlowFunc _ fn =>
+      match eval_ffun fn c with
+      | Ok _ => (c, [], Ok tt)
+      | _ => (c, [], Panic)                 (* fn panicked before SetFlow was reached *)
+      end
   end.
 
-(** the flow an action hands to [State.SetFlow], if any *)
-Definition sets_flow (a : action) : option Z :=
+(** the flow an action applied to a state with core [c] hands to
+    [State.SetFlow], if any.  Only [ASetFlowFunc] looks at [c]. *)
+Definition sets_flow (a : action) (c : core) : option Z :=
   match a with
   | ASetFlow g => Some g
   | ACustom _ _ (Some g) _ => Some g
+  | ASetFlowFunc _ fn => match eval_ffun fn c with Ok g => Some g | _ => None end
   | _ => None
   end.
 
@@ -230,7 +266,7 @@ Fixpoint lookup (fam : family) (g : Z) : option (list tstep) :=
 Definition apply_action (a : action) (st : mstate) : mstate * outcome unit :=
   let '(c', _, r) := core_apply a (ms_core st) in
   let st1 := mkM (ms_flow st) (ms_step st) (ms_act st) c' in
-  (match sets_flow a with Some g => set_flow g st1 | None => st1 end, r).
+  (match sets_flow a (ms_core st) with Some g => set_flow g st1 | None => st1 end, r).
 
 (** the [for idx, action := range actions] loop *)
 Fixpoint loop_actions (acts : list action) (idx : Z) (st : mstate) (iss : list icoord)
@@ -309,7 +345,7 @@ Fixpoint spec_actions (acts : list action) (idx : Z) (c : core)
   | [] => ([], [], c, None)
   | a :: rest =>
       let '(c1, m1, r) := core_apply a c in
-      match sets_flow a with
+      match sets_flow a c with
       | Some g => (apply_issues idx r, m1, c1, Some g)
       | None =>
           let '(iss, m2, c2, sw) := spec_actions rest (idx + 1) c1 in
@@ -374,8 +410,21 @@ Fixpoint exec_flow (fam : family) (g : Z) (c : core) : list entry * core :=
 
 (** * Stratified families and their fuel bound *)
 
+Fixpoint ffun_targets (fn : ffun) : list Z :=
+  match fn with
+  | FFlow g => [g]
+  | FIf _ t e => ffun_targets t ++ ffun_targets e
+  | FPanic => []
+  end.
+
+(** every flow the action can switch to, whatever the state *)
 Definition action_targets (a : action) : list Z :=
-  match sets_flow a with Some g => [g] | None => [] end.
+  match a with
+  | ASetFlow g => [g]
+  | ACustom _ _ (Some g) _ => [g]
+  | ASetFlowFunc _ fn => ffun_targets fn
+  | _ => []
+  end.
 
 Fixpoint step_targets (s : step) : list Z :=
   match s with
@@ -392,6 +441,7 @@ Fixpoint step_targets (s : step) : list Z :=
          end) ss
   | SSetFlow g => [g]
   | SCustom _ _ acts => flat_map action_targets acts
+  | SSetFlowFunc _ fn => ffun_targets fn
   | _ => []
   end.
 
